@@ -427,6 +427,35 @@ class Translator:
             return '(ENeg %s)' % self.expr(e.operand)
         if isinstance(e, ast.BinOp) and type(e.op) in BINOPS:
             return '(EBin %s %s %s)' % (coq_str(BINOPS[type(e.op)]), self.expr(e.left), self.expr(e.right))
+        if isinstance(e, ast.Call):
+            f = e.func
+            # a cached evaluation of a sub-expression at the point of the query: a free value
+            if isinstance(f, ast.Attribute) and f.attr == '_evaluate' and len(e.args) == 1 and not e.keywords \
+                    and isinstance(e.args[0], ast.Name) and e.args[0].id == 'point':
+                tgt = f.value
+                name = None
+                if isinstance(tgt, ast.Name) and tgt.id == 'self':
+                    name = 'SV'
+                elif isinstance(tgt, ast.Attribute) and isinstance(tgt.value, ast.Name) and tgt.value.id == 'self':
+                    name = {'_inner': 'IV', '_left': 'LV', '_right': 'RV'}.get(tgt.attr)
+                if name is None:
+                    self.fail('evaluate target', e)
+                if name not in self.self_fields:
+                    self.self_fields.append(name)
+                return '(EName %s)' % coq_str(name)
+            # a call into math_functions
+            if isinstance(f, ast.Attribute) and isinstance(f.value, ast.Name) and f.value.id == 'mf':
+                args = [self.expr(a) for a in e.args]
+                kw = {k.arg: self.expr(k.value) for k in e.keywords}
+                if f.attr in ('nth_power', 'nth_root'):
+                    if 'n' in kw:
+                        args.append(kw.pop('n'))
+                elif f.attr in ('exponential', 'logarithm'):
+                    if 'base' in kw:
+                        args.append(kw.pop('base'))
+                if kw:
+                    self.fail('keyword arguments', e)
+                return '(EMf %s %s)' % (coq_str(f.attr), coq_list(args))
         if isinstance(e, ast.Call) and not e.keywords:
             f = e.func
             if isinstance(f, ast.Name) and f.id == 'float' and len(e.args) == 1:
@@ -492,6 +521,7 @@ class Translator:
         if a.vararg:
             params.append(('*' + a.vararg.arg, False))
         body = self.block(fd.body)
+        params = [p for p in params if p[0] != 'point']
         for f in self.self_fields:
             params.append((f, f == 'self.n'))
         ps = coq_list(['(%s, %s)' % (coq_str(n), 'true' if i else 'false') for n, i in params])
@@ -515,6 +545,10 @@ def generate_math():
                 if m.name == '_verify_domain_constraints':
                     tr = Translator('%s._verify_domain_constraints' % cls.name)
                     lines.append('Definition gen_verify_%s : pfun := %s.' % (cls.name, tr.function(m)))
+                if m.name in ('_numeric_partial_formula', '_numeric_partial_formula_left', '_numeric_partial_formula_right'):
+                    tr = Translator('%s.%s' % (cls.name, m.name))
+                    suffix = m.name[len('_numeric_partial_formula'):]
+                    lines.append('Definition gen_formula%s_%s : pfun := %s.' % (suffix, cls.name, tr.function(m)))
     return '\n'.join(lines) + '\n'
 
 
